@@ -114,3 +114,7 @@ Definition c12_split_case (centres name num : bool) (rows : list (list Q)) (colu
          end;
          negb centres || forallb (fun rp => own_centre_nearest (fst rp) (snd rp)) (combine rows stored);
          (length stored =? length rows)%nat ].
+(* the same with the rows given as integers: squared chords in units of 2^-K (one K per case) *)
+Definition c12_split_case_z (centres name num : bool) (rows : list (list Z)) (column : option (list nat))
+                            (stored : list nat) : nat :=
+  c12_split_case centres name num (map (map inject_Z) rows) column stored.
